@@ -1,6 +1,7 @@
 import Avfs.Driver.Idm
 import Avfs.Driver.Path
 import Avfs.Driver.Copy
+import Avfs.Driver.FS
 /-
   avfsdrv: line-protocol driver. One input line -> exactly one output line.
   Core Lean only (links natively).
@@ -10,12 +11,14 @@ open Avfs
 structure DState where
   idm : Idm.State := Idm.init [] []
   idmSpec : Idm.Spec := Idm.Spec.init [] []
+  fs : FS.FSState := FS.newState
 
 def stepLine (st : DState) (line : String) : DState × String :=
   match (line.trimAscii.toString.splitOn " ").filter (· ≠ "") with
   | "idm" :: rest => let (s, o) := Idm.exec st.idm rest; ({ st with idm := s }, o)
   | "idmspec" :: rest => let (s, o) := Idm.specExec st.idmSpec rest; ({ st with idmSpec := s }, o)
   | "path" :: rest => (st, Path.exec rest)
+  | "fs" :: rest => let (s, o) := FS.exec st.fs rest; ({ st with fs := s }, o)
   | "copy" :: rest => (st, Copy.exec rest)
   | "pathspec" :: rest => (st, Path.specExec rest)
   | ["#"] => (st, "#")
